@@ -245,6 +245,12 @@ def _caller_discipline(ctx, f, var):
         v = s.value
         ok = norm(v) in ("set()", "None") or (isinstance(v, ast.SetComp) and norm(v.elt).endswith(".lower()"))
         ctx.ob("F25-name", f.where, f"{var} = {norm(v)[:70]}", ok, "" if ok else "names already on disk are recorded with their case: a new name differing only in case is not seen as a clash")
+        if isinstance(v, ast.SetComp):
+            it = norm(v.generators[0].iter)
+            # the names to avoid are file/directory names: the *values* of a contents mapping (layer name -> directory, glyph name -> file)
+            if "ontents" in it and not it.endswith((".keys()",)) and "(" not in it.replace(".values()", ""):
+                okv = it.endswith(".values()")
+                ctx.ob("F25-name", f.where, f"{var} is built from {it} (file/directory names are the mapping's values)", okv, "" if okv else "the set holds the user-facing names (keys), not the names that exist on disk: clashes with existing directories go unnoticed")
     for a in adds:
         ok = norm(a.args[0]).endswith(".lower()")
         ctx.ob("F25-name", f.where, f"{var}.add({norm(a.args[0])})", ok, "" if ok else "generated name recorded with its case: later clashes ignoring case go unnoticed")
